@@ -4,9 +4,13 @@ import itertools
 import random
 
 
-def assign_pages_spec(h, g, s, pages, nrow, add, new_page):
-    """Concrete evaluation of the A1 ensures clauses; returns the list of violated clause names."""
+def assign_pages_spec(h, g, s, pages, nrow, add, new_page, pb=None, cont=None):
+    """Concrete evaluation of the A1 ensures clauses; returns the list of violated clause names.  pb / cont: heading rows budgeted
+    at a mid-page group start / at a page top for each row (top(f) = cont[f] - pb[f] extra rows when row f > 0 opens a page)."""
     n = len(h)
+    pb = pb or [0] * n
+    cont = cont or [0] * n
+    top = lambda f: (cont[f] - pb[f]) if f > 0 else 0
     bad = []
     if n == 0:
         return bad
@@ -22,15 +26,15 @@ def assign_pages_spec(h, g, s, pages, nrow, add, new_page):
     for x in h:
         S.append(S[-1] + x)
     for p in range(1, m + 1):
-        if not (S[last[p] + 1] - S[first[p]] <= avail or first[p] == last[p]):
+        if not (S[last[p] + 1] - S[first[p]] + top(first[p]) <= avail or first[p] == last[p]):
             bad.append("budget")
     for p in range(2, m + 1):
-        if not (force(first[p]) or S[first[p]] - S[first[p - 1]] + h[first[p]] > avail):
+        if not (force(first[p]) or S[first[p]] - S[first[p - 1]] + top(first[p - 1]) + h[first[p]] > avail):
             bad.append("break_only_if_required")
     for k in range(n):
         if force(k) and first[pages[k]] != k:
             bad.append("forced_break_always")
-        if first[pages[k]] != k and not (not force(k) and S[k + 1] - S[first[pages[k]]] <= avail):
+        if first[pages[k]] != k and not (not force(k) and S[k + 1] - S[first[pages[k]]] + top(first[pages[k]]) <= avail):
             bad.append("no_break_unless_required")
     return sorted(set(bad))
 
@@ -42,10 +46,16 @@ def replay_assign_pages(index, ob, seed, saved=None):
 
     def run(h, g, s, nrow, add, new_page):
         n = len(h)
-        meta = pl.DataFrame({"row_index": list(range(n)), "data_rows": h, "pageby_header_rows": [0] * n,
+        # heading rows: a mid-page group start budgets 1 row (already part of h), a page top shows 2 rows for every row of a grouped frame
+        pb = [1 if (g[k] and h[k] > 1) else 0 for k in range(n)]
+        cont = [max(pb[k], 2 if any(g) else 0) for k in range(n)]
+        if n:
+            cont[0] = pb[0]
+        meta = pl.DataFrame({"row_index": list(range(n)), "data_rows": [h[k] - pb[k] for k in range(n)], "pageby_header_rows": pb,
+                             "continuation_header_rows": cont,
                              "subline_header_rows": [0] * n, "column_header_rows": [0] * n, "total_rows": h,
                              "page": [0] * n, "is_group_start": g, "is_subline_start": s},
-                            schema={"row_index": pl.Int64, "data_rows": pl.Int64, "pageby_header_rows": pl.Int64,
+                            schema={"row_index": pl.Int64, "data_rows": pl.Int64, "pageby_header_rows": pl.Int64, "continuation_header_rows": pl.Int64,
                                     "subline_header_rows": pl.Int64, "column_header_rows": pl.Int64, "total_rows": pl.Int64,
                                     "page": pl.Int64, "is_group_start": pl.Boolean, "is_subline_start": pl.Boolean})
         calc = core.PageBreakCalculator(pagination=core.RTFPagination(page_width=8.5, page_height=11, margin=[1] * 6,
@@ -53,7 +63,7 @@ def replay_assign_pages(index, ob, seed, saved=None):
         out = calc._assign_pages(meta, add, new_page)
         pages = out["page"].to_list()
         other_ok = all(out[c].to_list() == meta[c].to_list() for c in meta.columns if c != "page")
-        bad = assign_pages_spec(h, g, s, pages, nrow, add, new_page)
+        bad = assign_pages_spec(h, g, s, pages, nrow, add, new_page, pb=pb, cont=cont)
         if not other_ok:
             bad.append("frame_other_columns")
         return pages, bad
